@@ -87,6 +87,16 @@ def _run(prop, tier, replay, text, quick_frac):
         agg = merge(res)
         rep.add_tlc('StoneLex', agg, {'MaxLines': maxlines, 'alphabet': 33})
         rep.add_judged(agg)
+        # delivery: the concatenated files on standard input must mean what the files mean (StoneStdin, SplitRestores)
+        consts = {'MaxFiles': 2, 'MaxBody': 1} if tier == 'quick' else {'MaxFiles': 2, 'MaxBody': 2}
+        res = run_shards('StoneStdin',
+                         lambda s: dict(spec='Spec', constants=dict(consts, Shard=s, NShards=8, EmitVectors=True),
+                                        invariants=['SplitRestores', 'OneHeaderPerPart', 'NothingLost'],
+                                        constraints=['Emit', 'InShard']),
+                         list(range(8)), 'stdincheck.StdinJudge', {}, tlc_kwargs={'timeout': 6000})
+        agg = merge(res)
+        rep.add_tlc('StoneStdin', agg, consts)
+        rep.add_judged(agg)
     rep.exhaustive = (tier == 'thorough' or prop in ('C01', 'C02'))
     rep.coverage_extra['rule'] = text
     rep.assumptions = ['TLC 1.8; harness/semcheck.py render_model / project_api; the rule catalogue of DESIGN Appendix A as '
@@ -116,4 +126,6 @@ def check_c11(tier, replay=None):
                 'thorough: all permutations) x file splits x file orders: verdict, projected Api and the bytes of python_types, '
                 'python_type_stubs and js_types output must coincide for all layouts of the same definitions; plus every sequence of '
                 '<= 3 (thorough 4) physical lines over the 33-letter StoneLex alphabet (comments, blank and whitespace-only lines, '
-                'trailing comments, nested and broken parentheses): real Lexer skeleton = StoneLex!OpLex, whose LayoutInvariance TLC checks', 2)
+                'trailing comments, nested and broken parentheses): real Lexer skeleton = StoneLex!OpLex, whose LayoutInvariance TLC checks; plus every sequence of <= 2 files of <= 1 (thorough 2) body lines '
+                'with preamble/comment/doc/identifier lines containing the word namespace delivered as files and on standard input '
+                '(StoneStdin!SplitRestores): same verdict and the same python_types bytes', 2)
